@@ -240,6 +240,13 @@ EXTRA = {
 TIEC_FULL = {"C01", "C02", "C04", "C05", "C06", "C09", "C14", "C16", "C18"}
 TIEC_STRUCT = {"C07", "C11"}
 TIEC_SOLVER = {"C03", "C13"}
+TIEC_LIST = {"C08"}
+LIST_TEXT = (" In addition the bodies of fteik2d_vectorized / fteik3d_vectorized (the sequential pre-check loop that raises, the "
+             "prange loop writing slot i of the output buffers) are re-translated from /repo's source into Lean on every run "
+             "(loops that can raise become folds in Except) and it is proved about that translation that a returned list "
+             "result holds in every slot exactly the result of the single call for that source, and that a failing list call "
+             "fails with 'source out of bound' because the single call for some source of the list fails with it "
+             "(gen_list2/3_ok_slots, gen_list2/3_error).")
 WIP = "check not registered yet in this revision (model/theorems under construction); see DESIGN.md §8"
 
 
@@ -266,6 +273,11 @@ def main():
                           "bit-identically to the running code by a second driver, and the decision logic is proved about that "
                           "translation for every input: it fails iff the source is outside the closed model, only with 'source out "
                           "of bound', and the returned vzero is the slowness of the clamped source cell.")
+            if p == "C13":
+                c["text"] += LIST_TEXT
+        elif p in TIEC_LIST:
+            c["technique"] += " + theorems proved directly about the list ('vectorized') solvers re-translated from the source into Lean on every run"
+            c["text"] += LIST_TEXT
         elif p in TIEC_STRUCT:
             c["technique"] += " + theorems proved directly about the sweep kernels re-translated from the source into Lean on every run"
             c["text"] += (" In addition the body of `sweep` (2D, 3D) is re-translated from /repo's source into a Lean definition on every "
